@@ -375,7 +375,7 @@ def main(tier, replay=None):
     ex = ThreadPoolExecutor(max_workers=8)
     # ---- (a)-(c) design checks, started in the background
     micro = cfg(LoadOps=ALL_LOAD, GenOps=['load_all', 'parse'], DumpOps=ALL_DUMP, Classes=['user'], Backends=['py', 'c'],
-                IOs=['file'], Docs=['comperr', 'tagdir', 'usetag', 'rec', 'ugen'], Vals=['shared2', 'reprerr', 'tagged', 'usesve', 'urepr'],
+                IOs=['file'], Docs=['comperr', 'tagdir', 'usetag', 'rec', 'ugen', 'ydeep', 'ykeyed'], Vals=['shared2', 'reprerr', 'tagged', 'usesve', 'urepr'],
                 MaxHist=1, MaxStream=1 if tier == 'quick' else 2, Faults=True, KeepHist=False)
     if tier == 'quick':
         design = cfg(LoadOps=ALL_LOAD, GenOps=['load_all', 'parse'], DumpOps=ALL_DUMP, Classes=['user'], Backends=['py', 'c'],
